@@ -60,6 +60,8 @@ pub trait Api1 {
 	async fn named(&self, first_arg: u64, secondArg: Option<String>) -> RpcResult<Vec<Value>>;
 	#[method(name = "renamed", param_kind = map)]
 	fn renamed(&self, #[argument(rename = "type")] ty: String, count: Option<u64>) -> RpcResult<Vec<Value>>;
+	#[method(name = "odd_names", param_kind = map)]
+	async fn odd_names(&self, #[argument(rename = "Block-Hash")] hash: String, #[argument(rename = "Type")] kind: Option<u64>) -> RpcResult<Vec<Value>>;
 	#[method(name = "aliased", aliases = ["ns.alias1", "other_alias"])]
 	async fn aliased(&self, a: u64) -> RpcResult<Vec<Value>>;
 	#[subscription(name = "sub" => "subNotif", unsubscribe = "unsub", item = Vec<Value>)]
@@ -115,6 +117,11 @@ impl Api1Server for Impl {
 		self.0.lock().unwrap().push(("renamed".into(), args.clone()));
 		Ok(ret(&args))
 	}
+	async fn odd_names(&self, hash: String, kind: Option<u64>) -> RpcResult<Vec<Value>> {
+		let args = vec![js(&hash), jo(&kind)];
+		self.0.lock().unwrap().push(("odd_names".into(), args.clone()));
+		Ok(ret(&args))
+	}
 	async fn aliased(&self, a: u64) -> RpcResult<Vec<Value>> {
 		let args = vec![js(&a)];
 		self.0.lock().unwrap().push(("aliased".into(), args.clone()));
@@ -166,6 +173,7 @@ fn methods() -> Vec<MD> {
 		MD { key: "four", rpc_name: "four", aliases: &[], map: false, params: vec![pd("a", false, 1), pd("b", false, 2), pd("c", false, 4), pd("d", true, 6)] },
 		MD { key: "named", rpc_name: "ns.named", aliases: &[], map: true, params: vec![pd("first_arg", false, 1), pd("secondArg", true, 2)] },
 		MD { key: "renamed", rpc_name: "ns.renamed", aliases: &[], map: true, params: vec![pd("type", false, 2), pd("count", true, 1)] },
+		MD { key: "odd_names", rpc_name: "ns.odd_names", aliases: &[], map: true, params: vec![pd("Block-Hash", false, 2), pd("Type", true, 1)] },
 		MD { key: "aliased", rpc_name: "ns.aliased", aliases: &["ns.alias1", "other_alias"], map: false, params: vec![pd("a", false, 1)] },
 		MD { key: "sub", rpc_name: "ns.sub", aliases: &[], map: false, params: vec![pd("a", false, 1), pd("b", true, 2)] },
 		MD { key: "subm", rpc_name: "ns.subm", aliases: &[], map: true, params: vec![pd("first", false, 2), pd("second_arg", true, 1)] },
@@ -279,6 +287,7 @@ async fn run(lines: Vec<String>, out: &mut Out) {
 					"four" => Api0Client::four(&client, a!(0, u64), a!(1, String), a!(2, Vec<u32>), o!(3, P)).await.map_err(|e| e.to_string()),
 					"named" => Api1Client::named(&client, a!(0, u64), o!(1, String)).await.map_err(|e| e.to_string()),
 					"renamed" => Api1Client::renamed(&client, a!(0, String), o!(1, u64)).await.map_err(|e| e.to_string()),
+					"odd_names" => Api1Client::odd_names(&client, a!(0, String), o!(1, u64)).await.map_err(|e| e.to_string()),
 					"aliased" => Api1Client::aliased(&client, a!(0, u64)).await.map_err(|e| e.to_string()),
 					"sub" => match Api1Client::sub(&client, a!(0, u64), o!(1, String)).await {
 						Ok(mut s) => s.next().await.map(|r| r.map_err(|e| e.to_string())).unwrap_or(Err("stream ended".into())),
